@@ -137,15 +137,21 @@ class ModelEval(Evaluator):
             if key in g:
                 return g[key]
             v = r[2]
+            state = self.hooks.setdefault("_module_state", {}) if isinstance(self.hooks, dict) else {}
+            if key in state:
+                return state[key]        # module-level objects keep their identity (and contents) across calls of one fold
             if isinstance(v, ast.expr):
                 # module-level constants and tables: evaluated in the defining module's scope (calls such as frozenset(...) included)
                 if self.depth > self.MAX_DEPTH:
                     raise Unsupported("module-level value %s: nesting too deep" % key)
                 sub = ModelEval(self.tree, _ModuleCtx(r[1]), {}, self.hooks, self.depth + 1, self.shared)
                 try:
-                    return sub.ev(v)
+                    val = sub.ev(v)
                 except Unsupported as e:
                     raise Unsupported("module-level value %s: %s" % (key, e))
+                if isinstance(val, (dict, list, set, PyObj)):
+                    state[key] = val
+                return val
             raise Unsupported("module-level value %s" % key)
         raise Unsupported("unbound name %s" % what)
 
